@@ -413,7 +413,7 @@ func (m *Memory) FindLatest(
 		now *am.TimeIndex, txn *badger.Txn) []*amhist.MemoryRecord {
 
 		machId := mach.Id()
-		mTimeIdxs := mach.Index(s.MTimeStates)
+		mTimeIdxs := m.Index(s.MTimeStates)
 		var ret []*amhist.MemoryRecord
 
 		// readTime returns the time record of the passed ID, or nil
